@@ -12,7 +12,8 @@ EXTENDS Naturals, Sequences, FiniteSets, TLC, Json, Randomization
    or a broken module escapes), NoClassCheck (a non-class reaches issubclass and escapes as TypeError), MroRegistryLookup (a
    subclass of a registered type is deserialised by its base's function into an instance of the base class).
  Part 2 (C18): the value grammar  None | bool | int | float | str | uuid | registered third-party type |
-   object of class A, B <: A, C <: B (or of a second class named A in another module) with two value fields | list of values;  Tag(v); the round trip through JSON
+   object of class A, B <: A, C <: B (or of a second class named A in another module) with two value fields | list of values |
+   a list holding the same sub-value object twice;  Tag(v); the round trip through JSON
    text is the identity with exact classes.  TLC enumerates the SHAPES (leaf tokens are concretised by the harness).
  ***************************************************************************************************)
 CONSTANTS Part, MaxDepth, SampleSize, NoTypeCheck, ImportOnlyNotFound, NoClassCheck, MroRegistryLookup
@@ -22,7 +23,7 @@ vars == <<stage, tag, outcome, val>>
 TagClasses == {"missing", "null", "empty_string", "zero", "false", "empty_list", "empty_dict",
                "true", "number", "list", "dict",
                "no_dot", "leading_dot", "trailing_dot", "double_dot", "unknown_module", "broken_module",
-               "module_without_attribute", "attr_function", "attr_module", "attr_typevar",
+               "module_without_attribute", "attr_function", "attr_module", "attr_typevar", "attr_constant", "attr_abstract_base",
                "attr_plain_class", "attr_subclass_of_registered", "attr_serializable_class", "attr_registered_class"}
 Falsy == {"missing", "null", "empty_string", "zero", "false", "empty_list", "empty_dict"}
 NonString == {"true", "number", "list", "dict"}
@@ -38,7 +39,8 @@ Expected(t) == CASE t \in Falsy -> "MissingTypeError"
                  [] t \in NonString \cup {"no_dot"} -> "InvalidTypeFormatError"
                  [] ImportResult(t) # "module" -> "UnknownModuleError"
                  [] t = "module_without_attribute" -> "ClassNotFoundError"
-                 [] t \in {"attr_function", "attr_module", "attr_typevar", "attr_plain_class", "attr_subclass_of_registered"} -> "ClassNotDeserializableError"
+                 [] t \in {"attr_function", "attr_module", "attr_typevar", "attr_constant", "attr_abstract_base", "attr_plain_class",
+                           "attr_subclass_of_registered"} -> "ClassNotDeserializableError"
                  [] OTHER -> "instance"
 \* layer I: the pipeline of from_json, one action per stage
 Init == /\ Part = "tag" /\ stage = "Get" /\ tag \in TagClasses /\ outcome = "-" /\ val = <<>>
@@ -52,12 +54,14 @@ Import == stage = "Import" /\ LET r == ImportResult(tag) IN
             IF r = "module" THEN Go("GetAttr")
             ELSE IF r = "ModuleNotFoundError" \/ ~ImportOnlyNotFound THEN Fail("UnknownModuleError") ELSE Fail(r)
 GetAttr == stage = "GetAttr" /\ IF tag = "module_without_attribute" THEN Fail("ClassNotFoundError") ELSE Go("ClassCheck")
-ClassCheck == stage = "ClassCheck" /\ IF tag \in {"attr_function", "attr_module", "attr_typevar"}
+\* attr_constant = a module-level value that is no class at all (a string, a tuple, a number);
+\* attr_abstract_base = SubclassJSONSerializer itself, which declares the protocol but cannot be deserialised
+ClassCheck == stage = "ClassCheck" /\ IF tag \in {"attr_function", "attr_module", "attr_typevar", "attr_constant"}
                                       THEN (IF NoClassCheck THEN Fail("TypeError") ELSE Fail("ClassNotDeserializableError"))
                                       ELSE Go("Dispatch")
 \* a class that is neither a SubclassJSONSerializer nor registered is not deserialisable - also when one of its bases is registered
 \* (MroRegistryLookup: the registry is searched along the MRO and the base's function builds an instance of the BASE class)
-Dispatch == stage = "Dispatch" /\ IF tag = "attr_plain_class" THEN Fail("ClassNotDeserializableError")
+Dispatch == stage = "Dispatch" /\ IF tag \in {"attr_plain_class", "attr_abstract_base"} THEN Fail("ClassNotDeserializableError")
                                   ELSE IF tag = "attr_subclass_of_registered"
                                   THEN (IF MroRegistryLookup THEN Fail("instance_of_base_class") ELSE Fail("ClassNotDeserializableError"))
                                   ELSE Fail("instance")
@@ -68,18 +72,19 @@ RightOutcome == stage = "Done" => outcome = Expected(tag)
 \* ---------------- part 2: value shapes
 Leaves == { <<"none">>, <<"true">>, <<"false">>, <<"int">>, <<"float">>, <<"str">>, <<"uuid">>, <<"date">>, <<"datetime">> }
 ClassesJ == {"A", "B", "C", "A2", "It"}      \* A2 = a class named A in another module; It = a subclass of A that is iterable (defines __iter__)
-Mk(t) == IF t[1] = "list0" THEN <<"list", <<>> >>
+Mk(t) == IF t[1] = "dup" THEN <<"dup", t[2]>>           \* a list that holds the SAME sub-value object twice (aliasing, no cycle)
+         ELSE IF t[1] = "list0" THEN <<"list", <<>> >>
          ELSE IF t[1] = "list1" THEN <<"list", <<t[2]>> >>
          ELSE IF t[1] = "list2" THEN <<"list", <<t[2], t[3]>> >>
          ELSE <<"obj", t[1], t[2], t[3]>>
 RECURSIVE Values(_)
 Values(d) == IF d = 0 THEN Leaves
-             ELSE LET S == Values(d - 1) IN S \cup { Mk(t) : t \in ({"list0", "list1", "list2"} \cup ClassesJ) \X S \X S }
+             ELSE LET S == Values(d - 1) IN S \cup { Mk(t) : t \in ({"list0", "list1", "list2", "dup"} \cup ClassesJ) \X S \X S }
 \* fully qualified tag every object dict must carry; leaves and lists carry none
 TagOf(v) == IF v[1] = "obj" THEN v[2] ELSE IF v[1] \in {"uuid", "date", "datetime"} THEN v[1] ELSE "-"
 ValInit == /\ Part = "value" /\ stage = "Done" /\ tag = "-" /\ outcome = "-"
            /\ val \in (IF SampleSize = 0 THEN Values(MaxDepth)
-                       ELSE LET K == {"list0", "list1", "list2"} \cup ClassesJ
+                       ELSE LET K == {"list0", "list1", "list2", "dup"} \cup ClassesJ
                                 \* the sub-values are themselves a random sample (the full product is too large to build)
                                 Sub1 == Leaves \cup RandomSubset(100, Values(1))
                                 Sub2 == Leaves \cup { Mk(u) : u \in RandomSubset(120, K \X Sub1 \X Sub1) }
